@@ -1,7 +1,9 @@
 use crate::engine::Property;
 
+pub mod c08;
+pub mod c09;
 pub mod c19;
 
 pub fn all() -> Vec<Property> {
-    vec![c19::property()]
+    vec![c08::property(), c09::property(), c19::property()]
 }
